@@ -176,3 +176,81 @@ func Must(err error) {
 		panic(fmt.Sprintf("%v", err))
 	}
 }
+
+// JudgeGroups is Judge for stateful walkers: every group (e.g. one history, starting with its own
+// Reset event) is kept inside one TLC process. BadCase.Index is the index into the flattened list.
+func JudgeGroups[T any](c *Ctx, name, dir, module string, groups [][]T, par int, timeout time.Duration) ([]BadCase, error) {
+	if par <= 0 {
+		par = runtime.NumCPU() / 2
+	}
+	total := 0
+	for _, g := range groups {
+		total += len(g)
+	}
+	if total == 0 {
+		return nil, nil
+	}
+	target := (total + par - 1) / par
+	if target < 300 {
+		target = 300
+	}
+	type chunk struct {
+		items []T
+		base  int
+	}
+	var chunks []chunk
+	cur := chunk{}
+	off := 0
+	for _, g := range groups {
+		if len(cur.items) > 0 && len(cur.items)+len(g) > target {
+			chunks = append(chunks, cur)
+			cur = chunk{base: off}
+		}
+		cur.items = append(cur.items, g...)
+		off += len(g)
+	}
+	if len(cur.items) > 0 {
+		chunks = append(chunks, cur)
+	}
+	var mu sync.Mutex
+	var bad []BadCase
+	var firstErr error
+	Parallel(len(chunks), par, func(i int) {
+		ch := chunks[i]
+		r, err := c.TLC(name, TLCRun{Dir: dir, Module: module, Workers: 1, Timeout: timeout, HeapGB: 3,
+			Files: map[string][]byte{"cases.ndjson": NDJSON(ch.items)}})
+		mu.Lock()
+		defer mu.Unlock()
+		if err != nil {
+			if firstErr == nil {
+				firstErr = err
+			}
+			return
+		}
+		if r.ErrKind != "" {
+			if firstErr == nil {
+				firstErr = Infra("judge %s reported %s (%s): judges must print BAD lines, not fail\n%s", module, r.ErrKind, r.Err, r.ErrTrace)
+			}
+			return
+		}
+		if r.Distinct != int64(len(ch.items))+1 {
+			if firstErr == nil {
+				firstErr = Infra("judge %s walked %d states for %d cases", module, r.Distinct, len(ch.items))
+			}
+			return
+		}
+		for _, t := range r.Tagged("BAD") {
+			if len(t) < 1 {
+				continue
+			}
+			if k, ok := t[0].(int64); ok {
+				bad = append(bad, BadCase{Index: ch.base + int(k) - 1, Info: t[1:]})
+			}
+		}
+	})
+	if firstErr != nil {
+		return nil, firstErr
+	}
+	sort.Slice(bad, func(a, b int) bool { return bad[a].Index < bad[b].Index })
+	return bad, nil
+}
